@@ -7,6 +7,7 @@
  *   table <init_size> <max_size> <mm>        mm: order | chunk | mmap  (min_nr_alloc_buckets = 1, no AUTO_RESIZE, no ACCOUNTING)
  *   node n<k> <hash> <key>                   user node k (k < MAXN), its hash and key (small integers)
  *   init n<k>                                cds_lfht_add() by the main thread before the run (initial contents, in this order)
+ *   ukey <key>                               key only ever inserted with add_unique / add_replace: no traversal may return two nodes of it
  *   thread <name>   followed by operations, each with "<rl> <ru>": take rcu_read_lock before / drop it after the call
  *     add n<k> rl ru | addu n<k> rl ru | addr n<k> rl ru        cds_lfht_add / add_unique / add_replace
  *     lookup <hash> <key> rl ru                                  cds_lfht_lookup into the thread's iterator
@@ -51,9 +52,10 @@ struct prog { char name[16]; int nops; struct op ops[MAXOPS]; int fin; };
 static struct prog P[MAXTH]; static int np;
 static struct cds_lfht *ht;
 static int destroyed;
-static int intable[MAXN];		/* oracle bookkeeping (driver-private): added and not yet obtained by a remover */
+static int added[MAXN];		/* oracle bookkeeping (driver-private): insertion reported successful (in the table unless ownedby[] says it was obtained since) */
 static int ownedby[MAXN];		/* 1 + index of the thread that obtained the node, 0: nobody */
 static int init_nodes[MAXN], ninit;
+static int ukeys[MAXN], nukeys;			/* keys under guarantee F (only inserted by add_unique / add_replace) */
 
 /* ------------------------------------------------------------------ work queue (src/workqueue.h): environment stub.  The tables of
  * this driver are created without CDS_LFHT_AUTO_RESIZE (resizes are explicit cds_lfht_resize() calls of scenario threads), so the
@@ -158,7 +160,7 @@ static int node_id(struct cds_lfht_node *n, const char *what)
 static void obtain(int id, int t, const char *what)
 {
 	if (ownedby[id]) vrt_fail("ORACLE node n%d obtained by two callers (%s of thread %s, earlier thread %s)", id, what, P[t].name, P[ownedby[id] - 1].name);
-	ownedby[id] = t + 1; intable[id] = 0;
+	ownedby[id] = t + 1;
 }
 static ABS_NS int joined(void *arg)
 {
@@ -186,11 +188,11 @@ static void *runner(void *arg)
 			else r = cds_lfht_add_replace(ht, m->hash, match, &key, &m->node);
 			vrt_op_end();
 			if (o->ru) abs_read_unlock();
-			if (kd[3] == 0) { intable[o->n] = 1; snprintf(res, sizeof res, "ok"); }
-			else if (kd[3] == 'u') { int id = node_id(r, "add_unique"); if (id == o->n) intable[id] = 1; snprintf(res, sizeof res, "n%d", id); }
-			else if (!r) { intable[o->n] = 1; snprintf(res, sizeof res, "NULL"); }
+			if (kd[3] == 0) { added[o->n] = 1; snprintf(res, sizeof res, "ok"); }
+			else if (kd[3] == 'u') { int id = node_id(r, "add_unique"); if (id == o->n) added[id] = 1; snprintf(res, sizeof res, "n%d", id); }
+			else if (!r) { added[o->n] = 1; snprintf(res, sizeof res, "NULL"); }
 			else { int id = node_id(r, "add_replace"); if (id == o->n) vrt_fail("ORACLE add_replace returned the new node");
-				obtain(id, me, "add_replace"); own[nown++] = id; intable[o->n] = 1; snprintf(res, sizeof res, "n%d", id); }
+				obtain(id, me, "add_replace"); own[nown++] = id; added[o->n] = 1; snprintf(res, sizeof res, "n%d", id); }
 		} else if (!strcmp(kd, "lookup")) {
 			int key = o->k;
 			vrt_log("\"op\":\"call\",\"api\":\"lookup\",\"h\":%d,\"k\":\"k%d\",\"rl\":%d,\"ru\":%d", o->h, o->k, o->rl, o->ru);
@@ -220,12 +222,12 @@ static void *runner(void *arg)
 			r = cds_lfht_replace(ht, &it, m->hash, match, &key, &m->node);
 			vrt_op_end();
 			if (o->ru) abs_read_unlock();
-			if (r == 0) { int id = node_id(old, "replace"); obtain(id, me, "replace"); own[nown++] = id; intable[o->n] = 1; snprintf(res, sizeof res, "0"); }
+			if (r == 0) { int id = node_id(old, "replace"); obtain(id, me, "replace"); own[nown++] = id; added[o->n] = 1; snprintf(res, sizeof res, "0"); }
 			else if (r == -ENOENT) snprintf(res, sizeof res, "-ENOENT");
 			else if (r == -EINVAL) snprintf(res, sizeof res, "-EINVAL");
 			else vrt_fail("ORACLE replace returned %d", r);
 		} else if (!strcmp(kd, "dups") || !strcmp(kd, "iter")) {
-			int key = o->k, cnt = 0; size_t len = 0; struct cds_lfht_node *n; res[0] = 0;
+			int key = o->k, cnt = 0, got[MAXN + 1]; size_t len = 0; struct cds_lfht_node *n; res[0] = 0;
 			if (kd[0] == 'd') vrt_log("\"op\":\"call\",\"api\":\"dups\",\"h\":%d,\"k\":\"k%d\",\"rl\":%d,\"ru\":%d", o->h, o->k, o->rl, o->ru);
 			else vrt_log("\"op\":\"call\",\"api\":\"iter\",\"rl\":%d,\"ru\":%d", o->rl, o->ru);
 			if (o->rl) abs_read_lock();
@@ -233,7 +235,13 @@ static void *runner(void *arg)
 			if (kd[0] == 'd') cds_lfht_lookup(ht, o->h, match, &key, &it); else cds_lfht_first(ht, &it);
 			while ((n = cds_lfht_iter_get_node(&it)) != NULL) {
 				if (++cnt > MAXN) vrt_fail("ORACLE traversal does not end");
-				len += snprintf(res + len, sizeof res - len, "%sn%d", len ? "," : "", node_id(n, "traversal"));
+				got[cnt - 1] = node_id(n, "traversal");
+				len += snprintf(res + len, sizeof res - len, "%sn%d", len ? "," : "", got[cnt - 1]);
+				for (int a = 0; a < cnt - 1; a++) {
+					if (got[a] == got[cnt - 1]) vrt_fail("ORACLE traversal returned node n%d twice", got[a]);
+					for (int u = 0; u < nukeys; u++) if (N[got[a]].key == ukeys[u] && N[got[cnt - 1]].key == ukeys[u])
+						vrt_fail("ORACLE traversal returned two nodes (n%d, n%d) of key k%d, which is only inserted by add_unique/add_replace", got[a], got[cnt - 1], ukeys[u]);
+				}
 				if (kd[0] == 'd') cds_lfht_next_duplicate(ht, match, &key, &it); else cds_lfht_next(ht, &it);
 			}
 			vrt_op_end();
@@ -292,6 +300,7 @@ int main(int argc, char **argv)
 		if (sscanf(line, "table %lu %lu %15s", &u, &v, b) == 3) { init_size = u; max_size = v; snprintf(mmname, sizeof mmname, "%s", b); continue; }
 		if (sscanf(line, "node n%d %d %d", &x, &y, &z) == 3 && x >= 0 && x < MAXN) { N[x].hash = y; N[x].key = z; N[x].declared = 1; continue; }
 		if (sscanf(line, "init n%d", &x) == 1 && x >= 0 && x < MAXN) { init_nodes[ninit++] = x; continue; }
+		if (sscanf(line, "ukey %d", &x) == 1 && nukeys < MAXN) { ukeys[nukeys++] = x; continue; }
 		if (sscanf(line, "thread %15s", a) == 1) { if (np == MAXTH) return 2; cur = &P[np++]; snprintf(cur->name, sizeof cur->name, "%s", a); continue; }
 		if (!cur || cur->nops == MAXOPS) continue;
 		struct op *op = &cur->ops[cur->nops]; op->n = -1;
@@ -334,7 +343,7 @@ int main(int argc, char **argv)
 		struct mynode *m = &N[init_nodes[k]];
 		cds_lfht_node_init(&m->node);
 		cds_lfht_add(ht, m->hash, &m->node);
-		intable[init_nodes[k]] = 1;
+		added[init_nodes[k]] = 1;
 	}
 	for (int k = 0; k < np; k++) vrt_spawn(P[k].name, runner, &P[k]);
 	vrt_run(&o);
@@ -356,11 +365,11 @@ int main(int argc, char **argv)
 			} else {
 				int id = node_id(n, "final list");
 				if (seenn[id]++) vrt_fail("ORACLE node n%d linked twice", id);
-				if (!intable[id]) vrt_fail("ORACLE node n%d is in the final list but was removed or never added", id);
+				if (!added[id] || ownedby[id]) vrt_fail("ORACLE node n%d is in the final list but was removed or never added", id);
 			}
 		}
 		for (unsigned long j = 0; j < size && j < MAXB; j++) if (seenb[j] != 1) vrt_fail("ORACLE bucket node b%lu not linked exactly once (size %lu)", j, size);
-		for (int k = 0; k < MAXN; k++) if (intable[k] && !seenn[k]) vrt_fail("ORACLE node n%d lost: added, not removed, not in the final list", k);
+		for (int k = 0; k < MAXN; k++) if (added[k] && !ownedby[k] && !seenn[k]) vrt_fail("ORACLE node n%d lost: added, not removed, not in the final list", k);
 		if (size != (1UL << order_of_size(size))) vrt_fail("ORACLE size %lu is not a power of two", size);
 	}
 	_exit(0);
